@@ -68,6 +68,13 @@ func (p person) Sum(a, b float64) float64     { return a + b }
 func (p *person) Rename(n string) string      { old := p.Name; p.Name = n; return old }
 func (p person) Self() person                 { return p }
 func (p person) hidden() string               { return "hidden" }
+func (p person) Wait(d userDur) string        { return fmt.Sprintf("waited %d", int64(d)) }
+func (p person) Level(l userLevel) userLevel  { return l + 1 }
+
+// named numeric types, as applications define them (type UserID int, time.Duration, ...)
+type userID int
+type userDur int64
+type userLevel uint8
 
 func newPerson() person {
 	return person{Name: "Ann", Age: 30, Tags: []string{"x", "y"}, secret: "s"}
@@ -215,6 +222,8 @@ func fixtureByID(id string) (stick.Value, error) {
 			return &v, nil
 		case map[int]string:
 			return &v, nil
+		case map[userID]string:
+			return &v, nil
 		case map[string]stick.Value:
 			return &v, nil
 		case person:
@@ -307,6 +316,20 @@ func fixtureByID(id string) (stick.Value, error) {
 			for _, e := range kv() {
 				f, _ := strconv.ParseFloat(e[0], 64)
 				m[f] = e[1]
+			}
+			return m, nil
+		case "ns":
+			m := map[userID]string{}
+			for _, e := range kv() {
+				n, _ := strconv.Atoi(e[0])
+				m[userID(n)] = e[1]
+			}
+			return m, nil
+		case "ls":
+			m := map[userLevel]string{}
+			for _, e := range kv() {
+				n, _ := strconv.Atoi(e[0])
+				m[userLevel(n)] = e[1]
 			}
 			return m, nil
 		case "nilss":
